@@ -71,3 +71,24 @@ package cbor
 //@   requires nonneg: offset >= 0
 //@   ensures actual: err == nil ==> offset < len(data) && cborMajor(data[offset]) == 128 && cborAI(data[offset]) <= 27 && n == hdrLen(data[offset])
 //@   ensures total: offset < len(data) && cborMajor(data[offset]) == 128 && cborAI(data[offset]) <= 27 ==> err == nil
+
+// C01: the stored encoding. SetCbor keeps a private copy of exactly the bytes it is given (nil stays
+// nil), SetCborReference keeps the very slice, Cbor returns what is stored.
+//@ func (d *DecodeStoreCbor) SetCbor(cborData) ()
+//@   props C01
+//@   requires recv: d != nil
+//@   assigns d.cborData
+//@   ensures same: seq(d.cborData) == old(seq(cborData)) && len(d.cborData) == len(cborData)
+//@   ensures nilstays: cborData == nil ==> d.cborData == nil
+//@   ensures input: seq(cborData) == old(seq(cborData))
+
+//@ func (d *DecodeStoreCbor) SetCborReference(cborData) ()
+//@   props C01
+//@   requires recv: d != nil
+//@   assigns d.cborData
+//@   ensures same: d.cborData == cborData
+
+//@ func (d DecodeStoreCbor) Cbor() (r)
+//@   props C01
+//@   pure
+//@   ensures stored: r == d.cborData
